@@ -291,14 +291,28 @@ def run(ctx) -> None:
     ctx.analysed(idw)
     cfg = CFG(idw)
     ctx.paths += cfg.paths_count()
-    rew = [n for n in cfg.nodes if n.kind == "stmt" and isinstance(n.ast, ast.Assign) and isinstance(n.ast.value, ast.BinOp)
-           and isinstance(n.ast.value.op, ast.Mod) and isinstance(n.ast.value.left, ast.Constant) and n.ast.value.left.value == "%d#%s"]
+    import re as _re
+
+    def hash_format(e: ast.AST):
+        """(BinOp, index of the argument that fills the '%d' in front of '#', index of the one behind it) for '<..>%d#%s<..>' % (..)"""
+        if isinstance(e, ast.BinOp) and isinstance(e.op, ast.Mod) and isinstance(e.left, ast.Constant) and isinstance(e.left.value, str) \
+                and "%d#%s" in e.left.value:
+            specs = [m_.start() for m_ in _re.finditer(r"%[sdrif]", e.left.value)]
+            at = e.left.value.index("%d#%s")
+            return e, specs.index(at), specs.index(at) + 1
+        return None
+    rew = [n for n in cfg.nodes if n.kind == "stmt" and isinstance(n.ast, ast.Assign) and hash_format(n.ast.value) is not None]
     ctx.require(bool(rew), "anchor missing: '%d#%s' rewrite of the loop-binding producer in instantiate_dowhile")
     # roles: (stage, producer, file, method) unpacked from ParseDataReferenceFull of a loop-binding value
     unp = [n.targets[0] for n in source.walk_own(idw) if isinstance(n, ast.Assign) and isinstance(n.targets[0], ast.Tuple)
            and len(n.targets[0].elts) == 4 and all(isinstance(e, ast.Name) for e in n.targets[0].elts)
            and isinstance(n.value, ast.Call) and last_attr(n.value) == "ParseDataReferenceFull"]
-    PRODUCER = rew[0].ast.targets[0].id if isinstance(rew[0].ast.targets[0], ast.Name) else "producer"
+    def fmt_args(r_):
+        b, i_it, i_nm = hash_format(r_.ast.value)
+        elts = list(b.right.elts) if isinstance(b.right, ast.Tuple) else [b.right]
+        return (elts[i_it] if i_it < len(elts) else None), (elts[i_nm] if i_nm < len(elts) else None)
+    _prod_arg = fmt_args(rew[0])[1]
+    PRODUCER = _prod_arg.id if isinstance(_prod_arg, ast.Name) else "producer"
     mine = [t for t in unp if t.elts[1].id == PRODUCER]
     METHOD = mine[0].elts[3].id if mine else "method"
     gt0 = match.test_nodes(cfg, lambda t: "T" if (match.compare_parts(t) and isinstance(match.compare_parts(t)[0], ast.Name)
@@ -315,11 +329,12 @@ def run(ctx) -> None:
             if vals == {"loopref", "loopoutput"}:
                 notloop.append((n, "T" if isinstance(n.ast.ops[0], ast.NotIn) else "F"))
     for r_ in rew:
-        args = r_.ast.value.right
-        ok = isinstance(args, ast.Tuple) and len(args.elts) == 2 and isinstance(args.elts[0], ast.BinOp) \
-            and isinstance(args.elts[0].op, ast.Sub) and isinstance(args.elts[0].left, ast.Name) \
-            and args.elts[0].left.id == "iteration_no" and isinstance(args.elts[0].right, ast.Constant) \
-            and args.elts[0].right.value == 1 and isinstance(args.elts[1], ast.Name) and args.elts[1].id == PRODUCER
+        it_arg, nm_arg = fmt_args(r_)
+        it_arg = match.resolve_local(idw, it_arg) if it_arg is not None else None
+        ok = isinstance(it_arg, ast.BinOp) \
+            and isinstance(it_arg.op, ast.Sub) and isinstance(it_arg.left, ast.Name) \
+            and it_arg.left.id == "iteration_no" and isinstance(it_arg.right, ast.Constant) \
+            and it_arg.right.value == 1 and isinstance(nm_arg, ast.Name) and nm_arg.id == PRODUCER
         ctx.ob("C05.R3-loop-carried-from-previous", r_.ast, ok, "loop-carried inputs come from iteration_no - 1" if ok else
                "the loop-binding producer is not prefixed with iteration_no - 1: instance i reads from the wrong iteration")
         ok = bool(gt0) and match.only_via_edges(cfg, r_, gt0)
@@ -330,6 +345,32 @@ def run(ctx) -> None:
         ctx.ob("C05.R3-loop-carried-from-previous", r_.ast, ok, "aggregate loop references (loopref/loopoutput) keep the placeholder" if ok else
                "loopref/loopoutput bindings are pinned to a single iteration", construct=short(r_.ast) + " <- method not in [loopref, loopoutput]")
     LOOPB = match.role(idw, lambda v: isinstance(v, ast.Call) and last_attr(v) == "rewrite_loopbindings_for_stage_offset", "loop_bindings")
+    # the rewritten binding is re-assembled from ALL parts of the parsed reference: stage, producer, file and method
+    if mine:
+        parts = {"stage": mine[0].elts[0].id, "producer": mine[0].elts[1].id, "file": mine[0].elts[2].id, "method": mine[0].elts[3].id}
+        lb_stores = [n for n in source.walk_own(idw) if isinstance(n, ast.Assign) and any(
+            isinstance(t, ast.Subscript) and isinstance(t.value, ast.Name) and t.value.id == LOOPB for t in n.targets)]
+        ctx.floor("C05.R3-loop-carried-from-previous", len(lb_stores), 1, "stores of a rewritten loop binding")
+        for st_ in lb_stores:
+            seen_names: Set[str] = set()
+            todo = list(source.names_in(st_.value))
+            while todo:
+                nm_ = todo.pop()
+                if nm_ in seen_names:
+                    continue
+                seen_names.add(nm_)
+                if nm_ in parts.values():
+                    continue
+                for v_ in match.assigned_value(idw, nm_):
+                    todo.extend(source.names_in(v_))
+            missing = [k for k, v_ in parts.items() if v_ not in seen_names]
+            ok = not missing
+            ctx.ob("C05.R3-loop-carried-from-previous", st_, ok,
+                   "the rewritten binding is re-assembled from stage, producer, file and method of the original one" if ok else
+                   "the rewritten loop binding is re-assembled without the %s of the original binding: a binding such as "
+                   "'optimise/final.xyz:ref' becomes 'stage1.0#optimise:ref' at iteration 1 - the consumer receives the producer's whole "
+                   "working directory (or its stdout for :output) instead of the file" % " and the ".join(missing),
+                   construct="%s <- stage, producer, file, method" % short(st_, 60))
     upd = match.nodes_calling(cfg, lambda c: last_attr(c) == "update" and dotted(c.func.value) == "bindings")
     for u in upd:
         ok = bool(gt0) and match.only_via_edges(cfg, u, gt0)
